@@ -13,7 +13,7 @@ func vNewClient(conn net.PacketConn, rto time.Duration) *Client {
 	c := &Client{conn: conn, trMap: client.NewTransactionMap(), rto: rto, log: &allocation.VLogger{}}
 	// completing a transaction = finding and removing it in one critical section of mutexTrMap, so that the
 	// response path and the retransmission timer can never both complete the same transaction
-	vGuardDeletes(c.trMap.VEntries(), &c.mutexTrMap, "C12.transactions_are_completed_under_the_table_lock")
+	vGuardDeletes(c.trMap.VEntries(), &c.mutexTrMap, "C12.transactions_are_completed_under_the_table_lock|C18.transaction_completion_guarded_by_mutexTrMap")
 	return c
 }
 
@@ -92,7 +92,7 @@ func vResponseFor(tid [12]byte, class stun.MessageClass) []byte {
 // Two concurrent transactions, one inbound response with an arbitrary transaction id: only the
 // transaction with that id completes, with that message, once; duplicates and strangers are ignored.
 //
-//verif:props=C12 replay=model bounds="two pending transactions with arbitrary distinct ids; a response with an arbitrary id (success or error class), delivered twice"
+//verif:props=C12,C18 replay=model bounds="two pending transactions with arbitrary distinct ids; a response with an arbitrary id (success or error class), delivered twice"
 func VerifHarness_C12_response_matching() {
 	conn := &allocation.VPacketConn{Name: "client"}
 	c := vNewClient(conn, 200*time.Millisecond)
@@ -150,7 +150,7 @@ func VerifHarness_C12_response_matching() {
 
 // Close at any point and write errors: every pending caller is released with an error, the table is empty.
 //
-//verif:props=C12 replay=model bounds="one transaction; the first write or any retransmission write may fail; Close after 0..2 timer firings"
+//verif:props=C12,C18 replay=model bounds="one transaction; the first write or any retransmission write may fail; Close after 0..2 (quick) / 0..6 (thorough) timer firings"
 func VerifHarness_C12_close_and_write_errors() {
 	conn := &allocation.VPacketConn{Name: "client", Failing: true}
 	c := vNewClient(conn, 200*time.Millisecond)
@@ -172,7 +172,7 @@ func VerifHarness_C12_close_and_write_errors() {
 		tr = t
 	}
 	vAssume(tr != nil)
-	fires := vIntRange(0, 2)
+	fires := vIntRange(0, 2+4*vTier())
 	for k := 0; k < fires; k++ {
 		if done == 0 {
 			vFire(tr.VTimer())
